@@ -54,8 +54,8 @@ func (eval Evaluator) ExternalProduct(op0 *rlwe.Ciphertext, op1 *Ciphertext, opO
 
 		params := eval.GetRLWEParameters()
 
-		// If log(Q) * (Q-1)**2 < 2^{64}-1
-		if ringQ := params.RingQ(); levelQ == 0 && levelP == -1 && (ringQ.SubRings[0].Modulus>>29) == 0 {
+		// Single modulus, no P, and the unreduced 64-bit accumulation of the 32-bit path cannot wrap
+		if ringQ := params.RingQ(); levelQ == 0 && levelP == -1 && acc32BitFits(ringQ.SubRings[0].Modulus, len(op1.Value[0].Value[0])) {
 			eval.externalProduct32Bit(op0, op1, c0QP.Q, c1QP.Q)
 			ringQ.AtLevel(0).IMForm(c0QP.Q, opOut.Value[0])
 			ringQ.AtLevel(0).IMForm(c1QP.Q, opOut.Value[1])
@@ -77,6 +77,17 @@ func (eval Evaluator) ExternalProduct(op0 *rlwe.Ciphertext, op1 *Ciphertext, opO
 		eval.BasisExtender.ModDownQPtoQNTT(levelQ, levelP, c1QP.Q, c1QP.P, opOut.Value[1])
 
 	}
+}
+
+// acc32BitFits reports whether externalProduct32Bit can be used for the modulus q and d digits per gadget
+// ciphertext: it adds up, without reduction, 2*d products of a stored value (< q) and an output of NTTLazy
+// (<= 6q-2), which must stay below 2^64.
+func acc32BitFits(q uint64, d int) bool {
+	if q>>29 != 0 || d < 1 {
+		return false
+	}
+	/* #nosec G115 -- d is positive */
+	return uint64(2*d) <= ^uint64(0)/((q-1)*(6*q-2))
 }
 
 func (eval Evaluator) externalProduct32Bit(ct0 *rlwe.Ciphertext, rgsw *Ciphertext, c0, c1 ring.Poly) {
